@@ -36,7 +36,9 @@ def run_check(prop, tier, seed, replay=None):
         ctx = {}
         raw = None
         try:
-            raw, loaded = core.extract_conf(ws)
+            confdir = prop.confdir(ws)
+            ctx['confdir'] = confdir
+            raw, loaded = core.extract_conf(ws, confdir)
             ctx['raw'] = raw
             ctx['rawd'] = dict((k, v) for k, v in raw)
             ctx['loaded_templates'] = list(loaded.values())[0][0]
@@ -204,8 +206,10 @@ class PropBase:
     id = None
     rule = ''
     partial_note = ''
+    def confdir(self, ws):
+        return core.DEFAULT_CONFDIR
     def impl_kwargs(self, ctx):
-        return {}
+        return {'confdir': ctx.get('confdir', core.DEFAULT_CONFDIR)}
     def cases(self, rng, ctx, tier):
         return []
     def run_impl(self, ws, cases, ctx):
